@@ -62,6 +62,8 @@ class _Raw(io.FileIO):
             return None
         k = fs.begin("close", self._vf_name, 0)
         if fs.crash_at == (k, "before"):
+            if fs.fault_exc is not None:
+                fs.die()
             fs.dead = True
             self.close()
             raise Crash()
@@ -84,9 +86,13 @@ class _Raw(io.FileIO):
 
 
 class CrashFS:
-    def __init__(self, watch_dir: str, crash_at=None):
+    def __init__(self, watch_dir: str, crash_at=None, fault_exc=None):
         self.watch = os.path.realpath(watch_dir)
         self.crash_at = crash_at  # (op index, "before" | "after" | <int byte prefix>) or None
+        # fault_exc: instead of killing the process at the crash point, the file operation FAILS with this exception (disk
+        # full, I/O error) - once; the process lives on, later operations (cleanup, finally blocks) run normally
+        self.fault_exc = fault_exc
+        self.fault_raised = False
         self.ops: list[tuple] = []
         self.dead = False
         self._saved = {}
@@ -104,6 +110,10 @@ class CrashFS:
         return len(self.ops) - 1
 
     def die(self):
+        if self.fault_exc is not None:
+            self.crash_at = None
+            self.fault_raised = True
+            raise self.fault_exc
         self.dead = True
         raise Crash()
 
@@ -119,6 +129,9 @@ class CrashFS:
         raw_mode = mode.replace("b", "").replace("t", "")
         raw = _Raw(self, os.fspath(file), raw_mode)
         if self.crash_at == (k, "after"):
+            if self.fault_exc is not None:
+                raw.close()
+                self.die()
             self.dead = True
             raw.close()
             raise Crash()
